@@ -983,7 +983,7 @@ class Vector():
 		if self._dtype and self._dtype.kind is bool:
 			return Vector(
 				tuple(not x for x in self),
-				dtype=self._dtype,
+				dtype=DataType(bool, nullable=False),
 				name=self._name,
 				as_row=self._display_as_row
 			)
